@@ -1,6 +1,7 @@
 """Timeouts and ratios (module-level literals, Python ast) -> coq/Generated/GenConstants.v
 Time unit of the models: 1/1024 s (every constant must be exactly representable)."""
 import ast
+import re
 from fractions import Fraction
 
 from .util import PKG, TranslationError, coq_Z, write
@@ -68,6 +69,18 @@ def extract():
                     raise TranslationError(f"reconnect_logic.py: back-off expression outside the grammar: {txt}")
                 out["BACKOFF_BASE"] = Fraction(m.group(1))
                 out["BACKOFF_MAX"] = Fraction(m.group(2))
+    # Bluetooth device request types and the feature bit consulted by bluetooth_device_connect (enum members, introspected)
+    from aioesphomeapi import model as _model
+    for member in ("CONNECT", "DISCONNECT", "PAIR", "UNPAIR", "CONNECT_V3_WITH_CACHE", "CONNECT_V3_WITHOUT_CACHE", "CLEAR_CACHE"):
+        out["BLE_REQ_" + member] = Fraction(int(getattr(_model.BluetoothDeviceRequestType, member)))
+    out["BLE_FEATURE_REMOTE_CACHING"] = Fraction(int(_model.BluetoothProxyFeature.REMOTE_CACHING))
+    csrc = (PKG / "client.py").read_text()
+    m = re.search(r"async def bluetooth_gatt_start_notify\(.*?timeout: float = ([0-9.]+),", csrc, re.S)
+    m2 = re.search(r"async def _send_bluetooth_message_await_response\(.*?timeout: float = ([0-9.]+),", csrc, re.S)
+    if not m or not m2:
+        raise TranslationError("client.py: default timeouts of the BLE handle operations not found")
+    out["BLE_NOTIFY_TIMEOUT"] = Fraction(m.group(1))
+    out["BLE_HANDLE_TIMEOUT"] = Fraction(m2.group(1))
     for k in ("BACKOFF_TRIES_CAP", "BACKOFF_BASE", "BACKOFF_MAX"):
         if k not in out:
             raise TranslationError(f"reconnect_logic.py: {k} not found")
@@ -79,7 +92,7 @@ def extract():
 
 TIMES = ["DISCONNECT_CONNECT_TIMEOUT", "DISCONNECT_RESPONSE_TIMEOUT", "HANDSHAKE_TIMEOUT", "RESOLVE_TIMEOUT",
          "CONNECT_REQUEST_TIMEOUT", "TCP_CONNECT_TIMEOUT", "KEEP_ALIVE_FREQUENCY", "DEFAULT_BLE_TIMEOUT",
-         "DEFAULT_BLE_DISCONNECT_TIMEOUT", "EXPECTED_DISCONNECT_COOLDOWN"]
+         "DEFAULT_BLE_DISCONNECT_TIMEOUT", "EXPECTED_DISCONNECT_COOLDOWN", "BLE_NOTIFY_TIMEOUT", "BLE_HANDLE_TIMEOUT"]
 
 
 def generate():
@@ -93,7 +106,9 @@ def generate():
     r = c["KEEP_ALIVE_TIMEOUT_RATIO"]
     body += f"Definition KEEP_ALIVE_RATIO_NUM : Z := {coq_Z(r.numerator)}.\nDefinition KEEP_ALIVE_RATIO_DEN : Z := {coq_Z(r.denominator)}.\n"
     body += f"Definition BACKOFF_BASE_NUM : Z := {coq_Z(c['BACKOFF_BASE'].numerator)}.\nDefinition BACKOFF_BASE_DEN : Z := {coq_Z(c['BACKOFF_BASE'].denominator)}.\n"
-    for n in ("BACKOFF_TRIES_CAP", "BACKOFF_MAX", "MAXIMUM_BACKOFF_TRIES", "MAX_SUPPORTED_MAJOR", "HELLO_API_MAJOR", "HELLO_API_MINOR"):
+    ints = ["BACKOFF_TRIES_CAP", "BACKOFF_MAX", "MAXIMUM_BACKOFF_TRIES", "MAX_SUPPORTED_MAJOR", "HELLO_API_MAJOR", "HELLO_API_MINOR"]
+    ints += sorted(k for k in c if k.startswith("BLE_REQ_")) + ["BLE_FEATURE_REMOTE_CACHING"]
+    for n in ints:
         if c[n].denominator != 1:
             raise TranslationError(f"{n} is not an integer")
         body += f"Definition {n} : Z := {coq_Z(c[n].numerator)}.\n"
